@@ -58,6 +58,17 @@ FloatValueWhy(ev, f, sc) ==
              THEN IF WithinOneUlp(F, x, rv) THEN "" ELSE "lossy result more than one ulp from the correctly rounded value"
         ELSE IF CorrectlyRounded(F, x, rv) THEN "" ELSE "not the correctly rounded value"
 
+Feat(ev) == [format |-> ev.feat.format, pow2 |-> ev.feat.pow2 \/ ev.feat.radix, radix |-> ev.feat.radix]
+
+(* C18: with an invalid format or invalid punctuation the parser returns a configuration error *)
+(* (an error without a position), not a value and not a panic                                 *)
+ConfigValidity(ev, isFloat) ==
+    LET f  == FmtOf(ev)
+        fv == FormatValidity(f, Feat(ev))
+        pv == IF isFloat THEN OptionsPunctuationValidity(f, PFOpts(ev).exp, PFOpts(ev).point) ELSE "valid"
+    IN  IF fv = "invalid" \/ pv = "invalid" THEN "invalid"
+        ELSE IF fv = "unspecified" \/ pv = "unspecified" THEN "unspecified" ELSE "valid"
+
 ParseFloatContract(ev) ==
     LET f  == FmtOf(ev)
         o  == PFOpts(ev)
@@ -66,9 +77,12 @@ ParseFloatContract(ev) ==
         r  == ev.res
         sc == ScanComplete("float", f, o, s, n)
         sp == SpecialOf(f, o, s, n)
+        cv == ConfigValidity(ev, TRUE)
     IN  IF Abnormal(r) THEN << << "C10", "parse call did not return: " \o r.k >> >>
         ELSE IF r.k = "err" /\ r.idx > n THEN << << "C10", "error index beyond the input" >> >>
         ELSE IF r.k = "ok" /\ r.n > n THEN << << "C10", "consumed count beyond the input" >> >>
+        ELSE IF cv = "invalid" THEN V(r.k = "err" /\ r.idx = -1, "C18", "invalid format or punctuation did not yield a configuration error")
+        ELSE IF cv = "unspecified" \/ (ev.wo /\ ~ev.opts_valid) THEN << >>
         ELSE IF sc.v = "U" THEN << >>
         ELSE IF sc.v = "A" THEN
             IF r.k # "ok" THEN << << GrammarProp(ev, sc), "specification accepts, implementation rejects" >> >>
@@ -102,6 +116,20 @@ StdParseFloatDispute(ev) ==
 (***************************************************************************)
 PlainIntFormat(f) == f = FromRadix(Radix(f)) \/ f = NewFormat
 
+(* integers under formats with syntax / separator flags (C12, C13): acceptance and value *)
+IntGrammarContract(ev, f, T) ==
+    LET s  == ev.in
+        n  == ev.len
+        r  == ev.res
+        sc == ScanComplete(IF T.signed THEN "int" ELSE "uint", f, [exp |-> 0, point |-> 0], s, n)
+        mag == FromDigits(sc.int, Radix(f))
+    IN  IF ev.partial \/ sc.v = "U" THEN << >>
+        ELSE IF sc.v = "R" THEN V(r.k = "err", IF sc.hassep THEN "C13" ELSE "C12",
+                                  "specification rejects (" \o sc.why \o "), implementation accepts")
+        ELSE IF ~Fits(T, sc.neg, mag) THEN V(r.k = "err", "C04", "out-of-range numeral accepted")
+        ELSE IF r.k # "ok" THEN << << (IF sc.hassep THEN "C13" ELSE "C12"), "specification accepts, implementation rejects" >> >>
+        ELSE V(FromDec(r.v.d) = mag /\ (r.v.neg = (sc.neg /\ mag # << >>)), IF sc.hassep THEN "C13" ELSE "C12", "accepted input has the wrong value")
+
 ParseIntContract(ev) ==
     LET f  == FmtOf(ev)
         T  == IntTypes[ev.ty]
@@ -111,7 +139,10 @@ ParseIntContract(ev) ==
     IN  IF Abnormal(r) THEN << << "C10", "parse call did not return: " \o r.k >> >>
         ELSE IF r.k = "err" /\ r.idx > n THEN << << "C10", "error index beyond the input" >> >>
         ELSE IF r.k = "ok" /\ r.n > n THEN << << "C10", "consumed count beyond the input" >> >>
-        ELSE IF ~PlainIntFormat(f) THEN << >>
+        ELSE IF ConfigValidity(ev, FALSE) = "invalid"
+             THEN V(r.k = "err" /\ r.idx = -1, "C18", "invalid format did not yield a configuration error")
+        ELSE IF ConfigValidity(ev, FALSE) = "unspecified" THEN << >>
+        ELSE IF ~PlainIntFormat(f) THEN IntGrammarContract(ev, f, T)
         ELSE LET sp == IntParseSpec(T, Radix(f), s, n, ev.partial) IN
              IF sp.k = "uns" THEN << >>
              ELSE IF sp.k = "ok" THEN
@@ -454,12 +485,23 @@ LossyAgreesAt(o, i) ==
            /\ (a.res.k = "ok" /\ a.res.v.cls \in {"zero", "inf"} /\ ClearlyOutside(b) => SameVal(a.res.v, b.res.v))
            /\ (a.res.k = "ok" /\ ConservativeFastPath(b) => SameVal(a.res.v, b.res.v))
 
+(* C13: an input without a separator byte is treated identically by a format and by its separator-free counterpart *)
+SepFreeSameAt(o, i) ==
+    LET b == o[i] IN
+    (b.op = "parse" /\ HasSeparator(FmtOf(b)) /\ ~ContainsByte(b.in, FmtOf(b).digit_separator, 1) /\ ~Abnormal(b.res)) =>
+    \A j \in Others(o, i) :
+        LET a == o[j] IN
+        (a.op = "parse" /\ a.ty = b.ty /\ a.cfg = b.cfg /\ a.api = b.api /\ a.partial = b.partial /\ a.in = b.in
+           /\ a.wo = b.wo /\ a.opts = b.opts /\ a.fmt # b.fmt /\ FmtOf(a) = NoSep(FmtOf(b)) /\ ~Abnormal(a.res))
+        => SameRes(a.res, b.res)
+
 RelationsAt(o, i) ==
        V(PartialAgreesAt(o, i),      "C11", "partial and complete parsers disagree")
     \o V(AdditiveAt(o, i),           "C16", "results differ between build configurations")
     \o V(FacadeEqualsCoreAt(o, i),   "C17", "lexical and lexical-core disagree")
     \o V(RoundTripAt(o, i),          "C08", "written bytes do not parse back to the same value")
     \o V(LossyAgreesAt(o, i),        "C19", "lossy parsing changed more than the precision")
+    \o V(SepFreeSameAt(o, i),        "C13", "separator-free input treated differently by the format and its separator-free counterpart")
     \o V(OptionsRelationAt(o, i),    "C14", "digits are not the default digits rounded to max_significant_digits")
     \o V(TrimRelationAt(o, i),       "C14", "trim_floats did not remove exactly the '.0' of an integral output")
 
